@@ -307,6 +307,8 @@ def matrix_body(r, idx, lists_may_differ=False):
                     '*dictionaries*, which fails', lib.loc(fi, mc))
     elif isinstance(inv, ast.Lambda):
         _cost_expr(r, fi, inv.body, inv.args.args[0].arg if inv.args.args else None, lib.loc(fi, inv))
+        if not lists_may_differ:
+            _longform_grade_kept_fresh(r, idx)      # the cost reads result['grade_decimal'] of nested results as it finds it
     elif cost_fi is None:
         r.undecided('find_optimal_order: cost function', 'cost function `%s` not resolved' % short(inv), lib.loc(fi, mc))
     else:
@@ -319,6 +321,9 @@ def matrix_body(r, idx, lists_may_differ=False):
                 _cost_expr(r, cost_fi, p.leaf.expr, p0, lib.loc(cost_fi, p.leaf.stmt))
             elif p.leaf.kind == 'fall':
                 r.violation('find_optimal_order: cost function', 'a path returns no cost (None)', cost_fi.loc)
+        if not any(isinstance(st, ast.Assign) and any(cm.sub_key(t) == 'grade_decimal' for t in st.targets) for st in walk_own(cost_fi.node)):
+            if not lists_may_differ:
+                _longform_grade_kept_fresh(r, idx)  # the cost function does not consolidate long-form cells itself
         # nested long-form results: the grade is consolidated before it is read
         for st in walk_own(cost_fi.node):
             if isinstance(st, ast.Assign) and any(cm.sub_key(t) == 'grade_decimal' for t in st.targets):
@@ -419,6 +424,14 @@ def matrix_body(r, idx, lists_may_differ=False):
     ex = cm.extraction_facts(idx)
     comp = ex.fi
     construct = 'Munkres.compute: pair order'
+    if getattr(ex, 'layout', 'cells') == 'row-star':
+        if cm.is_call_to(ex.nest[0][1], 'range', 1) and not ex.extra:
+            r.ok(construct, 'one pair per row, generated in increasing row order', lib.loc(comp, ex.collection))
+        else:
+            r.undecided(construct, 'row generator `%s` / extra filters' % short(ex.nest[0][1]), lib.loc(comp, ex.collection))
+        r.check(ex.pair_order == 'row-col', 'Munkres.compute: pair roles', '(row, col)',
+                'pairs are emitted as `%s` with the row index second' % unparse(ex.pair), lib.loc(comp, ex.pair))
+        return
     if not ex.nest or len(ex.nest) != 2:
         r.undecided(construct, 'result loop nest not recognised', comp.loc)
     else:
@@ -440,6 +453,79 @@ def matrix_body(r, idx, lists_may_differ=False):
     a, b = ex.pair.elts
     r.check(a.id == ex.row_idx.id and b.id == ex.col_idx.id, 'Munkres.compute: pair roles', '(row, col)',
             'pairs are emitted as `%s` with the row index second' % unparse(ex.pair), lib.loc(comp, ex.pair))
+
+
+
+def _longform_grade_kept_fresh(r, idx):
+    """When the cost function reads `result['grade_decimal']` of a long-form (nested ListGrader) result instead of consolidating
+    its entries itself, that stored grade must (1) be the consolidation of the record's own entries when perform_check builds it
+    and (2) be refreshed whenever ListGrader.check changes the entries afterwards (the partial_credit=False zeroing)."""
+    pc = idx.func(LGC + '.perform_check')
+    c1 = 'ListGrader.perform_check: consolidated grade of a long-form result'
+    dicts = [ret.value for ret in lib.returns_of(pc.node) if isinstance(ret.value, ast.Dict)]
+    if len(dicts) != 1:
+        r.undecided(c1, 'perform_check does not return one dict literal', pc.loc)
+        return
+    d = {k.value: v for k, v in zip(dicts[0].keys, dicts[0].values) if isinstance(k, ast.Constant)}
+    if 'grade_decimal' not in d:
+        r.violation(c1, "find_optimal_order reads result['grade_decimal'] of nested (long-form) results, but the record built by "
+                    "perform_check has no such key: grading a grouped unordered list fails with KeyError", lib.loc(pc, dicts[0]),
+                    expected="'grade_decimal': consolidate_grades(<grades of its input_list>)")
+        return
+    gv = cm.value_of(pc, d['grade_decimal'])
+    entries = d.get('input_list')
+    ok1 = False
+    if cm.is_call_to(gv, 'consolidate_grades') and gv.args and lib.get_kw(gv, 'n_expect', 1) is None:
+        a0 = cm.value_of(pc, gv.args[0])
+        if isinstance(a0, (ast.ListComp, ast.GeneratorExp)) and len(a0.generators) == 1 and not a0.generators[0].ifs \
+                and isinstance(a0.generators[0].target, ast.Name) and entries is not None \
+                and nf.equal(nf.canon(a0.generators[0].iter), nf.canon(entries)) \
+                and nf.match("%s['grade_decimal']" % a0.generators[0].target.id, a0.elt) is not None:
+            ok1 = True
+    if ok1:
+        r.ok(c1, "consolidate_grades over the record's own input_list", lib.loc(pc, dicts[0]))
+    else:
+        r.undecided(c1, "'grade_decimal' = `%s` not recognised as the consolidation of the record's entries" % short(gv), lib.loc(pc, dicts[0]))
+    # (2) ListGrader.check: entries zeroed afterwards -> the stored grade must follow
+    ck = idx.func(LGC + '.check')
+    c2 = "ListGrader.check: stored grade follows the zeroing of the entries"
+    if cm.calls_unreviewed(idx, ck.node):
+        r.undecided(c2, 'un-inlined helpers %s are called' % cm.calls_unreviewed(idx, ck.node), ck.loc)
+        return
+    cfg = cfg_of(ck.node)
+    zero_loops = []
+    for lp in walk_own(ck.node):
+        if isinstance(lp, ast.For) and isinstance(lp.target, ast.Name) and any(
+                isinstance(x, ast.Assign) and len(x.targets) == 1 and cm.sub_key(x.targets[0]) == 'grade_decimal'
+                and cm.is_name(x.targets[0].value, lp.target.id) for x in ast.walk(lp)):
+            zero_loops.append(lp)
+    if not zero_loops:
+        r.ok(c2, 'ListGrader.check does not change entries after perform_check', ck.loc)
+        return
+    lp = zero_loops[0]
+    m = nf.match("_B['input_list']", lp.iter)
+    if m is None or not isinstance(m['_B'], ast.Name):
+        r.undecided(c2, 'the loop that changes entry grades does not run over `<result>[\'input_list\']`', lib.loc(ck, lp))
+        return
+    B = m['_B'].id
+    refresh = [x for x in walk_own(ck.node) if isinstance(x, ast.Assign) and len(x.targets) == 1 and cm.sub_key(x.targets[0]) == 'grade_decimal'
+               and cm.is_name(x.targets[0].value, B)]
+    good = []
+    for x in refresh:
+        v = cm.value_of(ck, x.value)
+        if (isinstance(v, ast.Constant) and v.value == 0 and not isinstance(v.value, bool)) or \
+                (cm.is_call_to(v, 'consolidate_grades') and any(nf.match("%s['input_list']" % B, n) is not None for n in ast.walk(cm.value_of(ck, v.args[0])))):
+            good.append(x)
+    starts = [n for z in zero_loops for n in cfg.nodes_of(z)]
+    through = [n for x in good for n in cfg.nodes_of(x)]
+    if good and cfg.must_pass(starts, through, exits='return'):
+        r.ok(c2, "%s['grade_decimal'] is recomputed after the entries are zeroed" % B, lib.loc(ck, good[0]))
+    else:
+        r.violation(c2, "with partial_credit=False ListGrader.check sets every entry of %s['input_list'] to grade 0 but leaves the consolidated "
+                    "%s['grade_decimal'] (computed in perform_check before the zeroing) unchanged: a parent unordered ListGrader reads that "
+                    "stale grade as the cost of the pairing (1 - grade), so its assignment is optimised over credits the nested grader no "
+                    "longer awards" % (B, B), lib.loc(ck, lp),
+                    expected="%s['grade_decimal'] = 0 (or consolidate_grades of the zeroed entries) after the loop" % B)
 
 
 def _cost_expr(r, fi, expr, p0, where):
@@ -1516,6 +1602,18 @@ _PC_OLD = ("        self.validate_submission(answers, student_list)\n\n        #
 _PC_NEW_LATE = ("        # Group the inputs in preparation for grading\n"
                 "        grouped_inputs = self.groupify_list(self.grouping, student_list)\n")
 
+_K_COST = ("    def calculate_cost(result):\n        \"\"\"\n        The result matrix could contain short-form or long-form result dictionaries.\n"
+           "        If long-form, we need to consolidate grades.\n        Either way, Munkres wants a cost matrix\n        \"\"\"\n"
+           "        if 'input_list' in result:\n            grades = [r['grade_decimal'] for r in result['input_list']]\n"
+           "            result['grade_decimal'] = consolidate_grades(grades)\n        return 1 - result['grade_decimal']\n\n"
+           "    cost_matrix = munkres.make_cost_matrix(result_matrix, calculate_cost)\n",
+           "    cost_matrix = munkres.make_cost_matrix(result_matrix,\n                                           lambda result: 1 - result['grade_decimal'])\n")
+_K_REC = ("        return {'input_list': ungrouped, 'overall_message': ''}\n",
+          "        grade_decimal = consolidate_grades([r['grade_decimal'] for r in ungrouped])\n\n"
+          "        return {'input_list': ungrouped, 'overall_message': '', 'grade_decimal': grade_decimal}\n")
+_K_FRESH = ("                    entry['ok'] = False\n                    entry['grade_decimal'] = 0\n",
+            "                    entry['ok'] = False\n                    entry['grade_decimal'] = 0\n                best_result['grade_decimal'] = 0\n")
+
 MUTANTS = [
     # D1
     Mutant('ordered-check-args-swapped', LG, "grader.check(answer, theinput, siblings=siblings)", "grader.check(theinput, answer, siblings=siblings)", 'D1'),
@@ -1591,6 +1689,9 @@ MUTANTS = [
     # D8
     Mutant('equal-sizes-demanded-of-ordered', LG, "        if not self.config['ordered']:\n            group_len = len(self.grouping[0])", "        if not self.subgrader_list:\n            group_len = len(self.grouping[0])", 'D8'),
     Mutant('equal-sizes-never-demanded', LG, "        if not self.config['ordered']:\n            group_len = len(self.grouping[0])", "        if self.config['ordered']:\n            group_len = len(self.grouping[0])", 'D8'),
+    # wave 6: the consolidated grade of a nested result stored by perform_check and read by the cost function
+    Mutant('stored-nested-grade-stale-after-zeroing', LG, [_K_COST, _K_REC], None, 'D2'),
+    Mutant('stored-nested-grade-missing', LG, [_K_COST], None, 'D2'),
     # D6
     Mutant('validation-dropped', LG, "        self.validate_submission(answers, student_list)\n\n        # Group the inputs", "        # Group the inputs", 'D6'),
     Mutant('validation-only-ordered', LG, "        self.validate_submission(answers, student_list)\n\n        # Group the inputs",
@@ -1631,6 +1732,7 @@ BENIGN = [
     Benign('group-sizes-by-set', LG, "            group_len = len(self.grouping[0])\n            for group in self.grouping:\n                if len(group) != group_len:\n                    raise ConfigError(\"Groups must all be the same length when unordered\")",
            "            if len(set(len(group) for group in self.grouping)) > 1:\n                raise ConfigError(\"Groups must all be the same length when unordered\")"),
     Benign('cost-matrix-built-in-place', LG, "    cost_matrix = munkres.make_cost_matrix(result_matrix, calculate_cost)\n", "    cost_matrix = [[calculate_cost(result) for result in row] for row in result_matrix]\n"),
+    Benign('stored-nested-grade-refreshed-after-zeroing', LG, [_K_COST, _K_REC, _K_FRESH], None),
     Benign('max-as-method', LG, "        max_score = np.max(scores)", "        max_score = scores.max()"),
     Benign('log-before-validation', LG, "        self.validate_submission(answers, student_list)\n\n        # Group the inputs",
            "        self.log('checking a list')\n        self.validate_submission(answers, student_list)\n\n        # Group the inputs"),
